@@ -36,7 +36,7 @@ func init() {
 			c13Cells()) +
 			"non-trivial = every cell; distinct = cell x repetition",
 		Assumptions: []string{
-			"'already subscribed by this client' is exercised by re-sending the client's original entry request after it is subscribed (the public API returns the existing instance for a second open of the same key); for create the cell additionally sends the request a second instance of the same client id would send (new DUID, creation snapshot) and demands refusal with unchanged store",
+			"'already subscribed by this client' is exercised by re-sending the client's original entry request after it is subscribed (the public API returns the existing instance for a second open of the same key); the cell additionally sends the request a second instance of the same client id would send (new DUID, creation snapshot): a create of the same type, or any mode with ANOTHER type - both must be refused with unchanged store",
 			"MongoDB is the in-memory stand-in; refused = RPC error or error-bit pack",
 		},
 		Trusted:    []string{"fakemongo (dump / diff)", "fakemqtt", "harness transport (direct mode)"},
@@ -434,9 +434,15 @@ func runC13(c *core.Case) *core.Result {
 		// snapshot operation, the mode's option bits) - what a second instance of client X would
 		// send. For create the statement is explicit: the key exists, so the request is refused
 		// and nothing stored changes.
-		if mode == bed.Create {
+		// For every mode the statement is explicit about another type: refused, nothing changes -
+		// also when the asking client id is recorded as a subscriber of the key's datatype.
+		zt, zm := typ, mode
+		if mode != bed.Create || r.Intn(2) == 0 {
+			zt, zm = otherType(typ, r), c13Modes[r.Intn(3)]
+		}
+		{
 			z := w.b.NewClient("colA", "X-again")
-			zd := z.Open(key, typ, mode)
+			zd := z.Open(key, zt, zm)
 			if zd != nil {
 				if r.Intn(2) == 0 {
 					w.localOp(zd)
@@ -450,7 +456,7 @@ func runC13(c *core.Case) *core.Result {
 						}
 					}
 				}
-				c.Step("client X sends a second %s for key %s with a new DUID", mode, key)
+				c.Step("client X sends a second entry (%s, as %s) for key %s with a new DUID", zm, zt, key)
 				before := w.b.DB.Flat(true)
 				ex2 := X.Send(req)
 				if ex2.Out.Panic != "" {
@@ -466,12 +472,16 @@ func runC13(c *core.Case) *core.Result {
 					return c.Inconclusive("idle")
 				}
 				if !ex2.Refused() {
-					return c.Violation("illegal-entry-accepted", "a second create of key %q by a client that is already subscribed to it (new DUID) was accepted by the server (response option %#x)", key, ex2.PackOf(key).GetOption())
+					return c.Violation("illegal-entry-accepted", "a second entry (%s as %s, new DUID) to key %q by a client that is already subscribed to it as %s was accepted by the server (response option %#x)", zm, zt, key, typ, ex2.PackOf(key).GetOption())
 				}
 				if d := fakemongoDiff(before, w.b.DB.Flat(true)); len(d) > 0 {
-					return c.Violation("refused-but-changed", "the refused second create changed stored data: %v", d)
+					return c.Violation("refused-but-changed", "the refused second entry (%s as %s) changed stored data: %v", zm, zt, d)
 				}
-				c.Count("second_create_by_subscribed_client_refused", 1)
+				if zt == typ {
+					c.Count("second_create_by_subscribed_client_refused", 1)
+				} else {
+					c.Count("other_type_entry_by_subscribed_client_refused", 1)
+				}
 				if res := mustSync(X); res != nil {
 					return res
 				}
